@@ -486,7 +486,22 @@ def run_check(spec, tier, seed):
                 ctx.broken.append("correspondence harness raised %s: %s" % (type(e).__name__, str(e)[:300]))
                 ctx.notes.append(traceback.format_exc()[-2000:])
         # 5/6. direct predicate search; deeper if something broke
-        spec.search(ctx, deep=bool(ctx.broken) or not ctx.quick)
+        try:
+            spec.search(ctx, deep=bool(ctx.broken) or not ctx.quick)
+        except Infra:
+            raise
+        except Exception as e:
+            # an exception that comes out of the repository's own code (innermost frame under REPO) while the search
+            # harness was exercising it is behaviour of the code under test, not a harness bug: report it as a broken
+            # tie (hits found before it are kept); anything else is a harness bug -> exit 2
+            tb = traceback.extract_tb(e.__traceback__)
+            inner = os.path.realpath(tb[-1].filename) if tb else ""
+            if inner.startswith(os.path.realpath(REPO) + os.sep):
+                ctx.broken.append("search harness: the code under test raised %s: %s (at %s:%d)"
+                                  % (type(e).__name__, str(e)[:300], os.path.relpath(inner, os.path.realpath(REPO)), tb[-1].lineno))
+                ctx.notes.append(traceback.format_exc()[-2000:])
+            else:
+                raise
         return finish(ctx, spec)
     except Infra as e:
         log("INFRA-FAILURE property=%s: %s" % (spec.pid, e))
